@@ -1,4 +1,4 @@
-import Libp2pModel.Model.C37
+import Libp2pModel.Model.C37_Mon
 import Libp2pModel.Model.C40
 namespace Driver.C37
 open Drv _root_.C37
@@ -90,47 +90,35 @@ def parseOp (c : Cfg) : List String → Option Op
   | ["adv", n] => do some (.advance (← n.toNat?))
   | _ => none
 
-/-! ## Spec monitor over the implementation's outputs -/
+/-! ## Spec monitor over the implementation's outputs: parsing into `C37.MObs`, judged by `C37.monStep` -/
 
-structure DNode where
-  key : String          -- key token as printed (index)
-  value : Nat
-  conn : Bool
-  deriving Repr, BEq
-
-structure DBucket where
-  index : Nat
-  nodes : List DNode
-  pending : Option DNode
-  deriving Repr
-
-def pDNode (s : String) : Option DNode :=
-  -- `<ki>.<val><c|d>`
+/-- `<ki>.<val><c|d>` → (key, connected?) -/
+def pDNode (c : Cfg) (s : String) : Option (Nat × Bool) :=
   match s.splitOn "." with
   | [k, rest] =>
     let cs := rest.toList
-    match cs.getLast? with
-    | some 'c' => (String.ofList cs.dropLast).toNat?.map fun v => ⟨k, v, true⟩
-    | some 'd' => (String.ofList cs.dropLast).toNat?.map fun v => ⟨k, v, false⟩
-    | _ => none
+    match cs.getLast?, (String.ofList cs.dropLast).toNat?, keyOf c k with
+    | some 'c', some _, some key => some (key, true)
+    | some 'd', some _, some key => some (key, false)
+    | _, _, _ => none
   | _ => none
 
-def pDBucket (s : String) : Option DBucket :=
-  -- `B<i>=<nodes>;<pending>`
+/-- `B<i>=<nodes>;<pending>` -/
+def pDBucket (c : Cfg) (s : String) : Option MBucket :=
   if !s.startsWith "B" then none else
   match ((s.drop 1).toString).splitOn "=" with
   | [i, rest] =>
     match rest.splitOn ";" with
     | [ns, p] => do
       let i ← i.toNat?
-      let nodes ← if ns = "-" then some [] else (ns.splitOn ",").mapM pDNode
-      let pending ← if p = "-" then some none else (pDNode p).map some
+      let nodes ← if ns = "-" then some [] else (ns.splitOn ",").mapM (pDNode c)
+      let pending ← if p = "-" then some none else (pDNode c p).map some
       some ⟨i, nodes, pending⟩
     | _ => none
   | _ => none
 
-/-- `ap=` token → list of (inserted key token, evicted key token option) -/
-def pApplied (s : String) : Option (List (String × Option String)) :=
+/-- `ap=` token → list of (inserted key, evicted key option) -/
+def pApplied (c : Cfg) (s : String) : Option (List (Nat × Option Nat)) :=
   if !s.startsWith "ap=" then none else
   let body := (s.drop 3).toString
   if body = "-" then some [] else
@@ -138,122 +126,32 @@ def pApplied (s : String) : Option (List (String × Option String)) :=
     match item.splitOn "/" with
     | [a, e] =>
       match a.splitOn ".", e.splitOn "." with
-      | [ak, _], [ek, _] => some (ak, some ek)
-      | [ak, _], ["none"] => some (ak, none)
+      | [ak, _], [ek, _] => do some (← keyOf c ak, some (← keyOf c ek))
+      | [ak, _], ["none"] => do some (← keyOf c ak, none)
       | _, _ => none
     | _ => none
 
-structure Mon where
-  cfg : Cfg
-  now : Nat
-  step : Nat
-  prev : List DBucket
-  /-- pending key token ↦ time it became pending -/
-  created : List (String × Nat)
-  /-- key token ↦ (status last assigned, stamp) -/
-  assigned : List (String × Bool × Nat)
+def pMOp (c : Cfg) : List String → MOp
+  | ["ins", k, _, st] => match keyOf c k with | some k => .ins k (st == "c") | none => .other
+  | ["upd", k, st] => match keyOf c k with | some k => .upd k (st == "c") | none => .other
+  | ["rem", k] => match keyOf c k with | some k => .rem k | none => .other
+  | ["adv", n] => match n.toNat? with | some n => .adv n | none => .other
+  | _ => .other
 
-def lookupA {β} (l : List (String × β)) (k : String) : Option β := (l.find? (·.1 == k)).map (·.2)
-def eraseA {β} (l : List (String × β)) (k : String) : List (String × β) := l.filter (·.1 != k)
-def setA {β} (l : List (String × β)) (k : String) (v : β) : List (String × β) := (k, v) :: eraseA l k
+def pMRes (args : List String) (res : String) : MRes :=
+  match args with
+  | "ins" :: _ => if res = "inserted" then .inserted else if res.startsWith "pending:" then .becamePending else .other
+  | "upd" :: _ => if res.startsWith "present:" then .present else .other
+  | "rem" :: _ => if res.startsWith "removed:" then .removed else .other
+  | _ => .other
 
-/-- structural clauses; returns the key of the first violated one -/
-def structural (c : Cfg) (d : List DBucket) : Option String :=
-  let conv : List BucketDump := d.map fun b =>
-    ⟨b.index, b.nodes.map (fun n => ((keyOf c n.key).getD 0, n.conn)), b.pending.map fun p => (keyOf c p.key).getD 0⟩
-  if d.any (fun b => b.nodes.any (fun n => (keyOf c n.key).isNone)) then some "unknown_key"
-  else if conv.any (fun b => decide (b.nodes.length > c.bsize)) then some "bucket_over_capacity"
-  else if conv.any (fun b => b.nodes.any fun n => bucketIndex (c.localKey ^^^ n.1) != some b.index) then
-    (if (allKeys conv).contains c.localKey then some "local_key_stored" else some "key_in_wrong_bucket")
-  else if !nodupB (allKeys conv) then some "duplicate_key"
-  else if conv.any (fun b => !statusOrdered (b.nodes.map (·.2))) then some "connected_before_disconnected"
-  else if conv.any (fun b => match b.pending with
-      | some p => (b.nodes.map (·.1)).contains p || bucketIndex (c.localKey ^^^ p) != some b.index
-      | none => false) then some "pending_key_invalid"
-  else if specDump c.localKey c.bsize conv then none else some "structure"
-
-/-- the pending rule, judged on one applied record against the previous dump -/
-def pendingRule (m : Mon) (a : String × Option String) : Option String :=
-  match m.prev.find? (fun b => match b.pending with | some p => p.key == a.1 | none => false) with
-  | none => some "applied_entry_was_not_pending"
-  | some b =>
-    match lookupA m.created a.1 with
-    | none => some "applied_entry_was_not_pending"
-    | some t0 =>
-      if m.now < t0 + m.cfg.timeout then some "pending_applied_before_timeout"
-      else
-        match a.2 with
-        | some ev =>
-          match b.nodes with
-          | h :: _ =>
-            if h.key != ev then some "evicted_not_least_recently_disconnected"
-            else if h.conn then some "evicted_connected_entry"
-            else if b.nodes.length < m.cfg.bsize then some "evicted_from_non_full_bucket"
-            else none
-          | [] => some "evicted_not_least_recently_disconnected"
-        | none => if b.nodes.length < m.cfg.bsize then none else some "full_bucket_no_eviction"
-
-def firstSome {α} (l : List α) (f : α → Option String) : Option String := l.findSome? f
-
-/-- least-recently-updated order and statuses, w.r.t. the monitor's own bookkeeping -/
-def lruCheck (assigned : List (String × Bool × Nat)) (d : List DBucket) : Option String :=
-  firstSome d fun b =>
-    let info := b.nodes.map fun n => (n.conn, lookupA assigned n.key)
-    if info.any (fun x => match x.2 with | some (st, _) => st != x.1 | none => true) then
-      some "status_not_last_assigned"
-    else
-      let stamps (c : Bool) := (info.filter (·.1 == c)).filterMap fun x => x.2.map (·.2)
-      let rec incr : List Nat → Bool
-        | a :: b :: r => decide (a < b) && incr (b :: r)
-        | _ => true
-      if incr (stamps false) && incr (stamps true) then none else some "not_least_recently_updated_order"
-
-def monStep (m : Mon) (args outs : List String) : Mon × String :=
+def monLine (c : Cfg) (m : Mon) (args outs : List String) : Mon × String :=
   match outs with
   | res :: ap :: "#" :: dumpToks =>
-    match pApplied ap, dumpToks.mapM pDBucket with
+    match pApplied c ap, dumpToks.mapM (pDBucket c) with
     | some aps, some dump =>
-      -- 1. pending rule on the applied records (they happen before the op's own effect)
-      let ruleFail := firstSome aps (pendingRule m)
-      let assigned1 := aps.foldl (fun asg a =>
-        let st := match m.prev.findSome? (fun b => match b.pending with
-            | some p => if p.key == a.1 then some p.conn else none
-            | none => none) with
-          | some s => s
-          | none => true
-        let asg := match a.2 with | some e => eraseA asg e | none => asg
-        setA asg a.1 (st, 2 * m.step)) m.assigned
-      let created1 := aps.foldl (fun cr a => eraseA cr a.1) m.created
-      -- 2. the op's own effect
-      let (assigned2, created2, now2) :=
-        match args with
-        | ["ins", k, _, st] =>
-          if res = "inserted" then (setA assigned1 k (st == "c", 2 * m.step + 1), created1, m.now)
-          else if res.startsWith "pending:" then (assigned1, setA created1 k m.now, m.now)
-          else (assigned1, created1, m.now)
-        | ["upd", k, st] =>
-          if res.startsWith "present:" then (setA assigned1 k (st == "c", 2 * m.step + 1), created1, m.now)
-          else (assigned1, created1, m.now)
-        | ["rem", k] =>
-          if res.startsWith "removed:" then (eraseA assigned1 k, created1, m.now)
-          else if res.startsWith "removedpending:" then (assigned1, eraseA created1 k, m.now)
-          else (assigned1, created1, m.now)
-        | ["adv", n] => (assigned1, created1, m.now + n.toNat!)
-        | _ => (assigned1, created1, m.now)
-      -- a pending entry that disappeared without being applied or removed was dropped
-      let created3 := created2.filter fun x => dump.any fun b => match b.pending with
-        | some p => p.key == x.1
-        | none => false
-      let m' : Mon := { m with now := now2, step := m.step + 1, prev := dump, created := created3, assigned := assigned2 }
-      match structural m.cfg dump with
-      | some k => (m', "FAIL:" ++ k)
-      | none =>
-        match ruleFail with
-        | some k => (m', "FAIL:" ++ k)
-        | none =>
-          match lruCheck assigned2 dump with
-          | some k => (m', "FAIL:" ++ k)
-          | none => (m', "ok")
+      let (m', v) := monStep m ⟨pMOp c args, pMRes args res, aps, dump⟩
+      (m', match v with | none => "ok" | some k => "FAIL:" ++ k)
     | _, _ => (m, "FAIL:unparsable")
   | _ => (m, "FAIL:unparsable")
 
@@ -261,11 +159,13 @@ structure MSt where
   cfg : Cfg
   table : Table
 
-def machine : Machine MSt Mon where
+def machine : Machine MSt (Cfg × Mon) where
   init cfg :=
     let c := parseCfg cfg
     ⟨c, Table.new c.localKey c.bsize c.timeout⟩
-  specInit cfg := ⟨parseCfg cfg, 0, 0, [], [], []⟩
+  specInit cfg :=
+    let c := parseCfg cfg
+    (c, Mon.init c.localKey c.bsize c.timeout)
   op s args :=
     match parseOp s.cfg args with
     | none => (s, "bad-op")
@@ -273,7 +173,9 @@ def machine : Machine MSt Mon where
       let (t1, r) := s.table.step op
       let (t2, aps) := t1.drain
       ({ s with table := t2 }, unwords ([showRes s.cfg r, showApplied s.cfg aps, "#"] ++ showTable s.cfg t2))
-  spec := monStep
+  spec cm args outs :=
+    let (m', v) := monLine cm.1 cm.2 args outs
+    ((cm.1, m'), v)
 
 end Driver.C37
 
